@@ -112,6 +112,8 @@ def model_tasks(case):
 def request(case, obs=None):
     req = {'model': 'sel', 'tasks': model_tasks(case), 'args': list(case['argv']), 'default': case.get('default'),
            'single': bool(case.get('single'))}
+    if case.get('entry'):
+        req['entry'] = case['entry']
     if obs is not None:
         req['obs'] = obs
     return req
@@ -281,6 +283,7 @@ def impl_cli(case, workdir):
     os.chdir(workdir)
     _ROOT[0] = os.path.realpath(workdir)
     events = []
+    api_error = None
     del _REC[:]
     out_s, err_s = io.StringIO(), io.StringIO()
     try:
@@ -308,7 +311,21 @@ def impl_cli(case, workdir):
         argv = ['run'] + rep_opt + (['--single'] if case.get('single') else []) + [sub(a) for a in case['argv']]
         with contextlib.redirect_stdout(out_s), contextlib.redirect_stderr(err_s):
             try:
-                code = DoitMain(ModuleTaskLoader(ns)).run(argv)
+                if case.get('entry') == 'run_tasks':
+                    # doit.api.run_tasks: the selection is the list of keys, no command line is parsed; user errors are
+                    # raised to the caller (observed as the exit class 3 + the error)
+                    from doit.api import run_tasks
+                    from doit.cmdparse import CmdParseError
+                    from doit.exceptions import InvalidCommand, InvalidDodoFile, InvalidTask
+                    if case.get('single'):
+                        cfg['single'] = True
+                    try:
+                        code = run_tasks(ModuleTaskLoader(ns), {sub(a): {} for a in case['argv']})
+                    except (CmdParseError, InvalidDodoFile, InvalidCommand, InvalidTask) as e:
+                        code = 3
+                        api_error = err_obs(e)
+                else:
+                    code = DoitMain(ModuleTaskLoader(ns)).run(argv)
             except SystemExit as e:
                 code = e.code
             except BaseException as e:  # noqa
@@ -331,7 +348,8 @@ def impl_cli(case, workdir):
         # doit's own reporter was in use: what is observed is what the recording actions wrote, in their order
         processed = list(dict.fromkeys(ran))
         started = list(processed)
-    return {'actions_only': actions_only, 'exit': code, 'error': classify_stderr(err_s.getvalue()), 'processed': processed, 'started': started,
+    return {'actions_only': actions_only, 'exit': code,
+            'error': api_error if case.get('entry') == 'run_tasks' else classify_stderr(err_s.getvalue()), 'processed': processed, 'started': started,
             'ran': ran, 'kwargs': kwargs, 'reporter': rec,
             'runtime_error': [r[1] for r in rec if r[0] == 'runtime_error']}
 
@@ -616,7 +634,7 @@ def gen_argv(rng, case):
     return argv
 
 
-def gen_case(rng, delayed_ok=None):
+def gen_case(rng, delayed_ok=None, entry_ok=True):
     if delayed_ok is None:
         delayed_ok = rng.random() < 0.12
     for _ in range(50):
@@ -634,6 +652,15 @@ def gen_case(rng, delayed_ok=None):
         case['argv'] = saved if rng.random() < 0.35 else []
     case['single'] = rng.random() < 0.3
     r = rng.random()
+    if entry_ok and r > 0.93 and case['argv']:
+        # doit.api.run_tasks({name: {}, ...}): distinct names / patterns / targets, no option words, no name=value removal
+        keys = [a for a in dict.fromkeys(case['argv']) if a and not a.startswith('-')]
+        if keys:
+            case['argv'] = keys
+            case['entry'] = 'run_tasks'
+            if rng.random() < 0.3:
+                case['argv'].append(rng.choice(['x=1.o', 'k=v']))
+            return case
     if r < 0.35:
         # the cli run uses one of doit's own reporters; the start order is then taken from the recording actions
         case['reporter'] = rng.choice(['json', 'json', 'json', 'zero', 'executed-only', 'console', 'error-only'])
@@ -658,5 +685,210 @@ def render(case):
         if case.get('reporter_via') == 'config':
             cfg += ' DOIT_CONFIG reporter=%r' % case['reporter']
     rep = '' if case.get('reporter') is None or case.get('reporter_via') == 'config' else '-r %s ' % case['reporter']
-    return 'tasks: %s;%s  $ doit run %s%s%s' % ('; '.join(parts), cfg, rep, '--single ' if case.get('single') else '',
+    pre = ''
+    if case.get('entry') == 'run_tasks':
+        return 'tasks: %s;%s  >>> doit.api.run_tasks(loader, {%s})%s' % (
+            '; '.join(parts), cfg, ', '.join('%r: {}' % a for a in case['argv']),
+            ' [single=True]' if case.get('single') else '')
+    if case.get('layout'):
+        dodo_rel, inv, lopts, env_extra, eff = LAYOUTS[case['layout']]
+        cfg += '  [dodo file %s, tasks work in %s/]  $ cd %s; %s' % (
+            dodo_rel, eff, inv, ' '.join('%s=%s' % kv for kv in sorted(env_extra.items())))
+        if case.get('lopts_after'):
+            rep = ' '.join(lopts) + ' ' + rep
+        else:
+            pre = ' '.join(lopts) + ' '
+    return 'tasks: %s;%s  $ doit %srun %s%s%s' % ('; '.join(parts), cfg, pre if pre.strip() else '', rep, '--single ' if case.get('single') else '',
                                               ' '.join(repr(a) for a in case['argv']))
+
+
+# ----------------------------------------------------------------------------------------------
+# implementation, third way: a real dodo file found through -f / --dir / --seek-file / DOIT_FILE, `python -m doit` as a
+# subprocess started from another directory than the one the tasks work in (wave 4, audit item 6)
+
+LAYOUTS = {
+    # name: (dodo file relative to root, invocation dir, loader options, environment, effective dir of the tasks)
+    'plain': ('proj/dodo.py', 'proj', [], {}, 'proj'),
+    'seek': ('proj/dodo.py', 'proj/sub/deep', ['-k'], {}, 'proj'),
+    'seek-long': ('proj/dodo.py', 'proj/sub', ['--seek-file'], {}, 'proj'),
+    'seek-env': ('proj/dodo.py', 'proj/sub', [], {'DOIT_SEEK_FILE': '1'}, 'proj'),
+    'file': ('proj/build.py', '.', ['-f', 'proj/build.py'], {}, 'proj'),
+    'file-abs': ('proj/build.py', 'work', ['--file=@ROOT@/proj/build.py'], {}, 'proj'),
+    'file-env': ('proj/build.py', '.', [], {'DOIT_FILE': 'proj/build.py'}, 'proj'),
+    'dir': ('proj/build.py', '.', ['-f', 'proj/build.py', '--dir', 'work'], {}, 'work'),
+    'dir-short': ('proj/dodo.py', 'proj', ['-d', '../work'], {}, 'work'),
+}
+IDENT = __import__('re').compile(r'^[A-Za-z_][A-Za-z0-9_]*$')
+
+
+def dodo_ok(case):
+    return (all(IDENT.match(t['name']) for t in case['tasks']) and not any(t.get('delayed') for t in case['tasks'])
+            and case.get('reporter') is None)
+
+
+def dodo_source(case, ev_path):
+    """python source of a dodo file defining the tasks of the case, in definition order"""
+    def lit(e):
+        if isinstance(e, dict):
+            return 'pathlib.Path(%r)' % sub(e['path'])
+        return repr(sub(e))
+
+    def tdict(full, d, sub_name=None):
+        items = []
+        if sub_name is not None:
+            items.append("'name': %r" % sub_name)
+        items.append("'actions': [_mk(%r, %r)]" % (full, [sub(t) for t in mtargets(d)]))
+        for key in ('task_dep', 'setup', 'calc_dep'):
+            if d.get(key):
+                items.append('%r: %r' % (key, list(d[key])))
+        for key in ('file_dep', 'targets'):
+            if d.get(key):
+                seq = ', '.join(lit(e) for e in d[key])
+                items.append('%r: %s' % (key, '(%s,)' % seq if d.get('pathform') == 'tuple' else '[%s]' % seq))
+        if d.get('params'):
+            items.append("'params': [%s]" % ', '.join(
+                '{%s}' % ', '.join('%r: %s' % (k, v.__name__ if isinstance(v, type) else repr(v))
+                                   for k, v in PARAMS[p].items()) for p in d['params']))
+        if d.get('pos_arg'):
+            items.append("'pos_arg': 'pos'")
+        if d.get('utd'):
+            items.append("'uptodate': [True]")
+        return '{%s}' % ', '.join(items)
+    cfg = ["'dep_file': 'db.json'", "'backend': 'json'", "'verbosity': 0", "'reporter': Rec"]
+    if case.get('default') is not None:
+        cfg.append("'default_tasks': %r" % [sub(a) for a in case['default']])
+    lines = [
+        'import json, os, pathlib',
+        'from doit.reporter import ZeroReporter',
+        'EV = %r' % ev_path,
+        'def _ev(x):',
+        "    with open(EV, 'a') as f:",
+        "        f.write(json.dumps(x) + '\\n')",
+        'class Rec(ZeroReporter):',
+        "    def get_status(self, task): _ev(['rep', 'get_status', task.name])",
+        "    def execute_task(self, task): _ev(['rep', 'execute', task.name])",
+        "    def add_failure(self, task, fail_info): _ev(['rep', 'failure', task.name])",
+        "    def add_success(self, task): _ev(['rep', 'success', task.name])",
+        "    def skip_uptodate(self, task): _ev(['rep', 'up-to-date', task.name])",
+        "    def skip_ignore(self, task): _ev(['rep', 'ignored', task.name])",
+        "    def runtime_error(self, msg): _ev(['rep', 'runtime_error', msg[:200]])",
+        'DOIT_CONFIG = {%s}' % ', '.join(cfg),
+        'def _mk(full, targets):',
+        '    def action(**kw):',
+        "        _ev(['run', full, os.getcwd(), {k: kw[k] for k in sorted(kw)}])",
+        '        for tg in targets:',
+        "            with open(tg, 'w') as f:",
+        '                f.write(full)',
+        '        return True',
+        '    return action',
+    ]
+    for t in case['tasks']:
+        lines.append('def task_%s():' % t['name'])
+        if t.get('subs') is not None:
+            if t.get('task_dep'):
+                lines.append("    yield {'name': None, 'task_dep': %r}" % list(t['task_dep']))
+            for s in t['subs']:
+                lines.append('    yield ' + tdict('%s:%s' % (t['name'], s['name']), s, s['name']))
+            if not t['subs'] and not t.get('task_dep'):
+                lines.append('    return\n    yield')
+        else:
+            lines.append('    return ' + tdict(t['name'], t))
+    return '\n'.join(lines) + '\n'
+
+
+def impl_dodo(case, workdir):
+    """`python -m doit <loader options> run [--single] ARGV` as a subprocess; same observables as impl_cli plus the working
+    directory the actions saw"""
+    import json as _json
+    import subprocess
+    dodo_rel, inv, lopts, env_extra, eff = LAYOUTS[case['layout']]
+    for name in os.listdir(workdir):
+        p = os.path.join(workdir, name)
+        if os.path.isdir(p):
+            shutil.rmtree(p, ignore_errors=True)
+        else:
+            os.remove(p)
+    root = os.path.realpath(workdir)
+    for dname in ('proj/sub/deep', 'work'):
+        os.makedirs(os.path.join(root, dname))
+    effdir = os.path.join(root, eff)
+    _ROOT[0] = effdir
+    ev_path = os.path.join(root, 'events.jsonl')
+    with open(os.path.join(root, dodo_rel), 'w') as f:
+        f.write(dodo_source(case, ev_path))
+    with open(os.path.join(effdir, SRC_FILE), 'w') as f:
+        f.write('src')
+    for full, d, grp, is_group in flat_defs(case):
+        for tg in ([] if is_group else mtargets(d) + mfile_dep(d)):
+            with open(os.path.join(effdir, sub(tg)), 'w') as f:
+                f.write('pre')
+    lopts = [o.replace('@ROOT@', root) for o in lopts]
+    # loader options are accepted before the command name and among the options of `run`
+    if case.get('lopts_after'):
+        argv = ['run'] + lopts
+    else:
+        argv = lopts + ['run']
+    argv += (['--single'] if case.get('single') else []) + [sub(a) for a in case['argv']]
+    env = dict(os.environ)
+    env.update(env_extra)
+    env['PYTHONPATH'] = common.REPO
+    env['PYTHONDONTWRITEBYTECODE'] = '1'
+    for k in ('DOIT_FILE', 'DOIT_SEEK_FILE'):
+        if k not in env_extra:
+            env.pop(k, None)
+    try:
+        p = subprocess.run([common.PYTHON, '-m', 'doit'] + argv, cwd=os.path.join(root, inv), env=env,
+                           stdout=subprocess.PIPE, stderr=subprocess.PIPE, text=True, timeout=120)
+        code, err = p.returncode, p.stderr
+    except subprocess.TimeoutExpired:
+        code, err = ['exc', 'Timeout'], ''
+    events = []
+    if os.path.exists(ev_path):
+        with open(ev_path) as f:
+            events = [_json.loads(l) for l in f if l.strip()]
+    processed, started, rec = [], [], []
+    for e in events:
+        if e[0] != 'rep':
+            continue
+        rec.append(e[1:])
+        if e[1] == 'runtime_error':
+            continue
+        if e[2] not in processed:
+            processed.append(e[2])
+        if e[1] != 'get_status' and e[2] not in started:
+            started.append(e[2])
+    runs = [e for e in events if e[0] == 'run']
+    if code == 1 and 'Traceback' in err and not processed:
+        # an exception escaped DoitMain.run (the interpreter prints it and exits 1)
+        code = ['exc', err.strip().split('\n')[-1].split(':')[0]]
+    return {'actions_only': False, 'exit': code, 'error': classify_stderr(err), 'processed': processed, 'started': started,
+            'ran': [e[1] for e in runs], 'kwargs': {e[1]: e[3] for e in runs}, 'reporter': rec,
+            'runtime_error': [r[1] for r in rec if r[0] == 'runtime_error'],
+            'cwds': sorted(set(os.path.relpath(e[2], root) for e in runs)), 'expected_cwd': eff}
+
+
+def gen_dodo_case(rng):
+    """a case for the dodo-file tier: identifier task names, a layout, sometimes a target named relative to the directory
+    doit was started from instead of the directory the tasks work in"""
+    for _ in range(40):
+        case = gen_case(random_sub(rng), delayed_ok=False, entry_ok=False)
+        case.pop('reporter', None)
+        case.pop('reporter_via', None)
+        if dodo_ok(case):
+            break
+    else:
+        case = {'tasks': [gen_taskdef(rng, 'a', [], [], allow_attrs=False)], 'argv': ['a'], 'default': None, 'single': False}
+    case['layout'] = rng.choice(sorted(LAYOUTS))
+    case['lopts_after'] = rng.random() < 0.3
+    inv, eff = LAYOUTS[case['layout']][1], LAYOUTS[case['layout']][4]
+    targets = [tg for f in flat_defs(case) if not f[3] for tg in mtargets(f[1]) if not tg.startswith(ABS)]
+    if targets and inv != eff and rng.random() < 0.35:
+        # the user names the file as seen from where doit was started: not the declared string
+        rel = os.path.relpath(os.path.join('/r', eff, rng.choice(targets)), os.path.join('/r', inv))
+        case['argv'] = list(case['argv']) + [rel]
+    return case
+
+
+def random_sub(rng):
+    import random
+    return random.Random(rng.getrandbits(64))
